@@ -32,14 +32,18 @@ def count (V : Type) : Combiner V Nat Nat where
 
 /-! ## Sum, Average over a number type -/
 
-/-- the arithmetic the numeric combiners use: `T::default()`, `+`, and `x / (n as f64)` -/
+/-- the arithmetic the numeric combiners use: `T::default()`, `+`, and `x / (n as f64)`;
+    `sumInit` is the value `Iterator::sum::<f64>()` starts from — `-0.0` since Rust 1.83 (the neutral
+    element of IEEE addition), which is the same number as `zero` in exact arithmetic but a different
+    bit pattern in `f64` (`AverageF64::build_from_group` is the only user) -/
 structure NumOps (α : Type) where
   zero : α
   add : α → α → α
   divNat : α → Nat → α
+  sumInit : α
 
-def intOps : NumOps Int := ⟨0, (· + ·), fun x n => x / (n : Int)⟩
-def ratOps : NumOps Rat := ⟨0, (· + ·), fun x n => x / (n : Rat)⟩
+def intOps : NumOps Int := ⟨0, (· + ·), fun x n => x / (n : Int), 0⟩
+def ratOps : NumOps Rat := ⟨0, (· + ·), fun x n => x / (n : Rat), 0⟩
 
 /-- `Sum<T>`: `*acc = take(acc) + v`; `build_from_group` = `fold(T::default(), |a, v| a + v)` -/
 def sumG {α : Type} (N : NumOps α) : Combiner α α α where
@@ -55,13 +59,13 @@ def sum : Combiner Int Int Int := sumG intOps
 def sumRat : Combiner Rat Rat Rat := sumG ratOps
 
 /-- `AverageF64`: accumulator `(sum, count)`; `finish` = `0.0` on count 0, else `sum / count`;
-    `build_from_group` = `(values.map(into).sum(), values.len())` -/
+    `build_from_group` = `(values.map(into).sum(), values.len())` (`sum()` starts from `sumInit`) -/
 def averageG {α : Type} (N : NumOps α) : Combiner α (α × Nat) α where
   create := (N.zero, 0)
   add acc v := (N.add acc.1 v, acc.2 + 1)
   merge acc other := (N.add acc.1 other.1, acc.2 + other.2)
   finish acc := if acc.2 == 0 then N.zero else N.divNat acc.1 acc.2
-  build xs := (xs.foldl (fun a v => N.add a v) N.zero, xs.length)
+  build xs := (xs.foldl (fun a v => N.add a v) N.sumInit, xs.length)
 
 /-- `AverageF64` in exact arithmetic -/
 def average : Combiner Rat (Rat × Nat) Rat := averageG ratOps
